@@ -81,6 +81,7 @@ func c39Judge(s *orcStep, res *run.Result) {
 	var destParent []string
 	cross := false
 	intoOwn := false
+	_ = intoOwn
 	if !k.Edge {
 		t = pre.findObj(k.Obj)
 		if t < 0 {
@@ -127,7 +128,7 @@ func c39Judge(s *orcStep, res *run.Result) {
 	if k.Edge {
 		variant += "-connection"
 	}
-	res.Inc("judged_" + strings.ReplaceAll(variant, "-", "_"))
+	orcJudged(s, res, strings.ReplaceAll(variant, "-", "_"))
 	cv := kind
 	if kind == "move" {
 		if cross {
@@ -142,7 +143,6 @@ func c39Judge(s *orcStep, res *run.Result) {
 	if k.Edge {
 		cv += "-connection"
 	}
-	trig := cv + ":" + pre.decl(t) + ":" + orcWhere(s)
 	reported := false
 	viol := func(clause, msg string) {
 		if reported {
@@ -151,18 +151,7 @@ func c39Judge(s *orcStep, res *run.Result) {
 			return
 		}
 		reported = true
-		if t >= 0 && pre.Objs[t].Foreign {
-			// one cause: relocating an object that is (partly) declared in an imported file cannot
-			// be done by editing this file, and is not refused
-			orcViol(res, "C39."+clause, "C39.imported-object-relocated-instead-of-refused:"+kind, msg+"\n"+s.describe())
-			return
-		}
-		if intoOwn {
-			// one cause, many symptoms: a destination inside the moved subtree is not refused
-			orcViol(res, "C39."+clause, "C39.destination-inside-moved-subtree-not-refused", msg+"\n"+s.describe())
-			return
-		}
-		orcViol(res, "C39."+clause, "C39."+clause+":"+trig, msg+"\n"+s.describe())
+		orcViol(res, "C39."+clause, orcSig(s, "C39", clause, cv), msg+"\n"+s.describe())
 	}
 	inSub := func(i int) bool { return t >= 0 && (i == t || pre.isDesc(i, t)) }
 	childrenMoveAlong := kind == "rename" || s.Call.Desc || !cross
